@@ -304,6 +304,19 @@ def pe_cases(draw, iterative, max_m, max_state):
             dg.append({"n": nm, "t": [qs[0]], "c": [qs[1]] if nm[0] == "C" else None, "k": k})
         if not any(n - 1 in g["t"] + (g["c"] or []) for g in vg + dg):
             dg.append({"n": "PHASE", "t": [n - 1], "c": None, "k": draw(coef)})     # the circuit defines the width of the state register
+        # idle qubit inside / below the state register (the circuit skips a qubit): in half of the cases with n >= 3 the
+        # gates are re-mapped so that one qubit below the top one is never touched
+        if n >= 3 and draw(st.booleans()):
+            idle = draw(st.integers(0, n - 2))
+            used = [q for q in range(n) if q != idle]
+            remap = lambda q: used[q % len(used)] if q != n - 1 else n - 1
+            for g in vg + dg:
+                t = [remap(q) for q in g["t"]]
+                c = [remap(q) for q in g["c"]] if g["c"] else None
+                if len(set(t + (c or []))) == len(t + (c or [])):      # keep the gate valid (distinct qubits)
+                    g["t"], g["c"] = t, c
+            if not any(idle in g["t"] + (g["c"] or []) for g in vg + dg):
+                case["idle_qubit"] = idle
         cm = draw(st.sampled_from(["all", "variational"]))
         for g in dg:      # "variational" controls only gates flagged variational: all phase gates must carry the flag; "all" must not need it
             g["v"] = True if cm == "variational" else draw(st.booleans())
@@ -386,6 +399,8 @@ def pe_body_factory(ctx):
         pg = prep_gates(case)
         v = R.run(pg, n)
         labels = {kind, f"m={m}", f"n={n}"}
+        if case.get("idle_qubit") is not None:
+            labels.add("circuit-unitary-skips-a-qubit")
         # ---- expected eigenphase, from the reference matrices
         if kind == "circuit":
             ug = case["V"] + d_gate_recs(case) + case["V"][::-1]
